@@ -81,6 +81,8 @@ class InterpBase:
         self.symc = itertools.count(1)
         self.evc = itertools.count(1)      # order of logged stores / raises
         self.module_oids = set()           # ids of objects created at module level (shared between calls)
+        self.call_seq = 0
+        self.byref_stack = []              # (call id, parameters passed by reference) of the calls being inlined
         self.handler_excs = []             # exception classes the enclosing handler bodies have caught (for a bare raise)
         self.obj_info = {}
         self.depth = 0
@@ -373,17 +375,44 @@ class InterpBase:
     def ev_Lambda(self, e, env, mod, fn):
         return T("lambda", e, mod)
 
+    def _comp_items(self, e, env, mod, fn):
+        """[(condition, element), ...] of a single-generator comprehension over a literal sequence, or None.
+        Each element is evaluated knowing its filter condition; elements whose filter is decided false are dropped."""
+        if len(e.generators) != 1 or e.generators[0].is_async:
+            return None, None
+        g = e.generators[0]
+        it = self.ev(g.iter, env, mod, fn)
+        if it.k == "range" and all(a.k == "const" and isinstance(a.a[0], int) for a in it.a[0]) and (len(it.a[0]) < 3 or it.a[0][2].a[0] != 0):
+            vals = range(*[a.a[0] for a in it.a[0]])
+            if len(vals) <= 64:
+                it = T("list", tuple(C(v) for v in vals), ty=("list", "int"))
+        if it.k not in ("list", "tuple"):
+            return None, it
+        out = []
+        for item in it.a[0]:
+            sub = env.clone()
+            self.assign(g.target, item, sub, mod, fn)
+            cond = TRUE
+            for c in g.ifs:
+                t = truthy(self.ev(c, sub, mod, fn))
+                cond = binop("and", cond, t)
+                sub.add_fact(t)
+                if sub.dead:
+                    break
+            if sub.dead or is_const(cond, False):
+                continue
+            out.append((cond, self.ev(e.elt, sub, mod, fn)))
+        return out, it
+
     def ev_ListComp(self, e, env, mod, fn):
-        # [f(x) for x in xs]: modelled structurally, element-wise map over an opaque list
-        if len(e.generators) == 1 and not e.generators[0].ifs:
-            it = self.ev(e.generators[0].iter, env, mod, fn)
-            if it.k in ("list", "tuple"):
-                out = []
-                for item in it.a[0]:
-                    sub = env.clone()
-                    self.assign(e.generators[0].target, item, sub, mod, fn)
-                    out.append(self.ev(e.elt, sub, mod, fn))
-                return T("list", tuple(out), ty=("list", None))
+        # [f(x) for x in xs if p(x)] over a literal sequence: element-wise; a filter that is not decided gives an
+        # "optlist" (elements present under a condition), which only sum / join / extend know how to consume
+        items, it = self._comp_items(e, env, mod, fn)
+        if items is not None:
+            if all(is_const(c, True) for c, _ in items):
+                return T("list", tuple(x for _, x in items), ty=("list", None))
+            return T("optlist", tuple(items), ty=("list", None))
+        if it is not None and not e.generators[0].ifs:
             return T("call", "listcomp", (it, C(ast.unparse(e.elt))), ty=("list", None))
         return T("call", "listcomp", (C(ast.unparse(e)),), ty=("list", None))
 
@@ -391,6 +420,12 @@ class InterpBase:
         return T("call", "dictcomp", (C(ast.unparse(e)),), ty="dict")
 
     def ev_GeneratorExp(self, e, env, mod, fn):
+        # a generator over a literal sequence is consumed once by the call it is an argument of: same elements as the list
+        items, _it = self._comp_items(e, env, mod, fn)
+        if items is not None:
+            if all(is_const(c, True) for c, _ in items):
+                return T("list", tuple(x for _, x in items), ty=("list", None))
+            return T("optlist", tuple(items), ty=("list", None))
         return T("call", "genexp", (C(ast.unparse(e)),), ty=("list", None))
 
     def ev_Dict(self, e, env, mod, fn):
@@ -473,12 +508,23 @@ class InterpBase:
         is_and = isinstance(e.op, ast.And)
         sub = env.clone()
         res = None
-        for v in e.values:
+        guard = TRUE
+        for i, v in enumerate(e.values):
+            before = dict(sub.vars) if _has_walrus(v) else None
             t = self.ev(v, sub, mod, fn)
+            if before is not None:
+                # names bound by := inside an operand outlive the expression; an operand after the first is only
+                # evaluated under the short-circuit guard, so a rebinding there is gated on it
+                for name, val in sub.vars.items():
+                    if before.get(name) is not val:
+                        old = env.vars.get(name)
+                        env.vars[name] = val if (i == 0 or old is None) else gamma(guard, val, old)
             res = t if res is None else binop("and" if is_and else "or", res, t)
             # short-circuit: later operands are evaluated knowing the earlier ones
             tb = truthy(t)
-            sub.add_fact(tb if is_and else un("not", tb))
+            g = tb if is_and else un("not", tb)
+            guard = binop("and", guard, g)
+            sub.add_fact(g)
             if sub.dead:
                 break
         return res
@@ -727,6 +773,10 @@ class InterpBase:
         v = self.ev(e.value, env, mod, fn)
         env.vars[e.target.id] = v
         return v
+
+
+def _has_walrus(node):
+    return any(isinstance(n, ast.NamedExpr) for n in ast.walk(node))
 
 
 def _txt(node):
